@@ -485,6 +485,157 @@ Definition chk_sync (c : sync_case) : bool := diag_sync c =? -1.
 
 FIT_CASES = []
 
+SNAP_PRELUDE = r"""
+(* searcher-level operations with snapshots held in memory; after every operation the implementation's state *)
+Definition snap_case := (sstate * list (sop * snapshot))%type.
+Fixpoint snap_diff (st : list sstate * sstate) (evs : list (sop * snapshot)) (i : Z) : Z :=
+  match evs with
+  | [] => -1
+  | (o, sn) :: rest =>
+      match sop_step st o with
+      | Error _ => -2 - i
+      | Ok st' => if ssnap_ok (snd st') sn then snap_diff st' rest (i + 1) else i
+      end
+  end.
+Definition diag_snap (c : snap_case) : Z := snap_diff ([], fst c) (snd c) 0.
+Definition chk_snap (c : snap_case) : bool := diag_snap c =? -1.
+"""
+
+
+def read_searcher_state(searcher):
+    if not hasattr(searcher, "state_transformer"):
+        enc = searcher.get_state()["searcher_int"]["state"]
+        obs = [(int(e["trial_id"]), int(k), float(v)) for e in enc["trials_evaluations"] for k, v in e["metrics"].get("target", {}).items()]
+        pend = [(int(p["trial_id"]), int(p["resource"])) for p in enc["pending_evaluations"]]
+        return obs, pend, [int(x) for x in enc["failed_trials"]]
+    st = searcher.state_transformer.state
+    obs = [(int(ev.trial_id), int(k), float(v)) for ev in st.trials_evaluations for k, v in ev.metrics.get("target", {}).items()]
+    return obs, [(int(p.trial_id), int(p.resource)) for p in st.pending_evaluations], [int(x) for x in st.failed_trials]
+
+
+def gen_snap_spec(rng):
+    return dict(searcher=rng.choice(["bayesopt", "bayesopt", "hypertune", "dyhpo"]), mode=rng.choice(["min", "max"]),
+                nops=rng.randint(12, 40), seed=rng.randrange(2 ** 31))
+
+
+def run_snapshot_case(spec):
+    """The searcher API driven directly (register_pending, on_trial_result(update=True), remove_case, evaluation_failed,
+    cleanup_pending) with snapshots (get_state) HELD IN MEMORY and restored later, possibly several times
+    (clone_from_state; the clone becomes the live searcher). After every operation the live searcher's state must equal
+    the harness's own record: the record at snapshot time for a restore, updated by what that searcher received since."""
+    import copy
+    import random
+    rng = random.Random(spec["seed"])
+    base = dict(searcher=spec["searcher"], type="dyhpo" if spec["searcher"] == "dyhpo" else "stopping", searcher_data="all",
+                myopic=True, mode=spec["mode"], rungs=0, brackets=1, per_bracket=False, ckpt=True, workers=1, nops=0, p_fail=0.0,
+                p_complete=0.0, p_fail_after_decision=0.0, seed=spec["seed"], num_init_random=10000)
+    sch, onehot, max_t = make_scheduler(base)
+    sug = sch.suggest(0)                      # configures the searcher; trial 0 gets its first pending entries
+    live = sch.searcher
+    cfgs = {0: dict(sug.config)}
+    obs0, pend0, failed0 = read_searcher_state(live)
+    rec = dict(obs={(t, r): c for (t, r, c) in obs0}, pend=list(pend0), failed=list(failed0))
+    held, held_rec = [], []
+    ops, snaps, problems = [], [], []
+    exc = None
+
+    def crit(v):
+        return 1.0 - v if spec["mode"] == "max" else v
+
+    def cfg_of(t):
+        if t not in cfgs:
+            c = dict(cfgs[0])
+            c["x"] = rng.random()
+            c["y"] = rng.randint(0, 1000)
+            cfgs[t] = c
+        return cfgs[t]
+
+    try:
+        for step in range(spec["nops"]):
+            trials = sorted(set([0, 1, 2]))
+            t = rng.choice(trials)
+            obs_t = sorted(r for (tt, r) in rec["obs"] if tt == t)
+            u = rng.random()
+            if u < 0.12:
+                held.append(live.get_state())
+                held_rec.append(copy.deepcopy(rec))
+                ops.append("OSnapshot")
+            elif u < 0.27 and held:
+                i = rng.randrange(len(held))
+                new = live.clone_from_state(held[i])
+                new.configure_scheduler(sch)
+                live = new
+                rec = copy.deepcopy(held_rec[i])
+                ops.append("ORestore %s" % natlit(i))
+            elif u < 0.62:
+                r = (max(obs_t) + 1) if obs_t else 1
+                if r > max_t:
+                    continue
+                v = rng.randint(1, 1023) / 1024.0
+                live.on_trial_result(str(t), cfg_of(t), result={"m": v, "epoch": r}, update=True)
+                rec["obs"][(t, r)] = crit(v)
+                if (t, r) in rec["pend"]:
+                    rec["pend"].remove((t, r))
+                ops.append("OLabel %s %s %s" % (zlit(t), zlit(r), q(crit(v))))
+            elif u < 0.82:
+                r = ((max(obs_t) if obs_t else 0) + rng.randint(1, 2))
+                if r > max_t or (t, r) in rec["obs"]:
+                    continue
+                live.register_pending(trial_id=str(t), config=cfg_of(t), milestone=r)
+                if (t, r) not in rec["pend"]:
+                    rec["pend"].append((t, r))
+                ops.append("ORegister %s %s" % (zlit(t), zlit(r)))
+            elif u < 0.88 and obs_t:
+                r = rng.choice(obs_t)
+                live.remove_case(str(t), **{"epoch": r})
+                del rec["obs"][(t, r)]
+                ops.append("ORemove %s %s" % (zlit(t), zlit(r)))
+            elif u < 0.94:
+                live.cleanup_pending(str(t))
+                rec["pend"] = [p for p in rec["pend"] if p[0] != t]
+                ops.append("OCleanup %s" % zlit(t))
+            else:
+                if t not in cfgs:
+                    continue
+                if not any(tt == t for (tt, _) in list(rec["obs"]) + rec["pend"]) and t != 0:
+                    continue
+                live.evaluation_failed(str(t))
+                rec["pend"] = [p for p in rec["pend"] if p[0] != t]
+                if t not in rec["failed"]:
+                    rec["failed"].append(t)
+                ops.append("OFailed %s" % zlit(t))
+            obs, pend, failed = read_searcher_state(live)
+            snaps.append((obs, pend, failed, None))
+            got = {(t0, r0): c0 for (t0, r0, c0) in obs}
+            bad = []
+            if len(got) != len(obs):
+                bad.append(("duplicate_observation",))
+            if got != rec["obs"]:
+                extra = sorted(set(got) - set(rec["obs"]))
+                missing = sorted(set(rec["obs"]) - set(got))
+                bad.append(("observations_differ_from_own_history", dict(never_reported_to_this_searcher=extra, missing=missing,
+                                                                          after=ops[-1])))
+            if sorted(pend) != sorted(rec["pend"]):
+                bad.append(("pending_differs_from_own_history", sorted(pend), sorted(rec["pend"])))
+            both = sorted(p for p in pend if p in got)
+            if both:
+                bad.append(("pending_at_observed_level", both))
+            if failed != rec["failed"]:
+                bad.append(("failed_differs", failed, rec["failed"]))
+            if bad:
+                problems.append((len(ops) - 1, ops[-1], bad))
+                break
+    except Exception as e:
+        exc = "%s: %s" % (type(e).__name__, str(e)[:200])
+    n = min(len(ops), len(snaps))
+    init_s = "{| obs := %s; pend := %s; failed := %s |}" % (
+        lst(["((%s, %s), %s)" % (zlit(t), zlit(r), q(c)) for (t, r, c) in obs0]) if obs0 else "(@nil ((Z * Z) * Q))",
+        lst(["(%s, %s)" % (zlit(t), zlit(r)) for (t, r) in pend0]) if pend0 else "(@nil (Z * Z))",
+        lst([zlit(t) for t in failed0]) if failed0 else "(@nil Z)")
+    evs = ["(%s, %s)" % (ops[i], coq_snapshot(snaps[i])) for i in range(n)]
+    term = "(%s, %s)" % (init_s, lst(evs) if evs else "(@nil (sop * snapshot))")
+    return dict(term=term, problems=problems, exc=exc, ops=ops, restores=sum(1 for o in ops if o.startswith("ORestore")))
+
 
 def gen_sync_spec(rng):
     return dict(searcher_data=rng.choice(["rungs", "all"]), mode=rng.choice(["min", "max"]), ckpt=rng.random() < 0.5,
@@ -655,7 +806,7 @@ def run(ctx, replay=None):
                 "contains at least one STOP/PAUSE decision and (a resume or a failure or a completion) or >= 2 trials "
                 "reporting at >= 3 levels; distinct by content hash of (spec, operations)")
     rng = ctx.rng
-    if replay is not None and replay.get("part") == "sync":
+    if replay is not None and replay.get("part") in ("sync", "snap"):
         todo = []
     elif replay is not None:
         todo = [(replay["spec"], replay.get("ops"))]
@@ -740,6 +891,36 @@ def run(ctx, replay=None):
                           "fitted to (state converter + observed_data_for_metric)", case=FIT_CASES[i][1], failing_input=False,
                           broken="correspondence chk_fit (model/SearcherData.v cap_state, fitted_rows)")
         del FIT_CASES[:]
+    # ---- snapshots held in memory and restored (get_state / clone_from_state) ------------------------------------
+    if replay is None or replay.get("part") == "snap":
+        pspecs = [replay["spec"]] if replay is not None else [gen_snap_spec(rng) for _ in range(ctx.n(40, 500))]
+        pterms, pmeta = [], []
+        for sp in pspecs:
+            res = run_snapshot_case(sp)
+            pcase = dict(part="snap", spec=sp)
+            ctx.count(pcase, nontrivial=res["restores"] >= 1)
+            ctx.traces_validated += 1
+            ctx.h("snap_searcher", sp["searcher"])
+            ctx.h("snap_restores", min(res["restores"], 6))
+            if res["exc"] is not None:
+                ctx.violation("property", "searcher %s raised %s in a snapshot/restore sequence %r" % (sp["searcher"], res["exc"], res["ops"][-4:]),
+                              case=pcase, signature=dict(check="exception", type="snapshot_restore", searcher=sp["searcher"]))
+            for (idx, op, bad) in res["problems"]:
+                ctx.violation("property", "searcher %s, after operation #%d %s the live searcher's state differs from its own history "
+                              "(snapshot held in memory / restored): %r" % (sp["searcher"], idx, op, bad[:2]), case=pcase,
+                              signature=dict(check=bad[0][0], type="snapshot_restore", searcher=sp["searcher"]))
+            pterms.append(res["term"])
+            pmeta.append(pcase)
+        if pterms:
+            pbad = ctx.coq_bad_cases("snap", IMPORTS, SNAP_PRELUDE, "chk_snap", pterms, shard=40)
+            if pbad:
+                diag = ctx.coq_eval("snapdiag", IMPORTS, SNAP_PRELUDE, ["diag_snap (%s : snap_case)" % pterms[i] for i in pbad[:4]])
+                for i, d in zip(pbad[:4], diag):
+                    ctx.violation("correspondence", "model/SearcherData.v sop_step differs from the searcher under snapshot/restore: "
+                                  "snap_diff = %s" % d, case=pmeta[i], failing_input=False,
+                                  broken="correspondence chk_snap (model/SearcherData.v sop_step)")
+    if replay is not None and replay.get("part") == "snap":
+        return
     # ---- synchronous Hyperband: the resource > prev_level guard -------------------------------------------
     if replay is None or replay.get("part") == "sync":
         sspecs = [replay["spec"]] if replay is not None else [gen_sync_spec(rng) for _ in range(ctx.n(40, 500))]
